@@ -308,3 +308,152 @@ theorem tokenizeM_sim : ∀ (ms ms' : List Match) (st st' : St), Sims ms ms' →
         exact ⟨by simp [h2, i1], i2⟩
 
 end LiquidVerif.LexDelimsL
+
+/-! ## the block-comment token: its value is the source text between `{% comment %}` and `{% endcomment %}` -/
+namespace LiquidVerif.LexDelimsL
+open LiquidVerif.LexDelims LiquidVerif.SpanLex
+
+theorem located_append {full : List Char} {a : Nat} {x y : List Char} (hx : Located full a x)
+    (hy : Located full (a + x.length) y) : Located full a (x ++ y) := by
+  obtain ⟨p, q, hf, hp⟩ := hx
+  obtain ⟨p', q', hf', hp'⟩ := hy
+  have h1 : p ++ x ++ q = p' ++ (y ++ q') := by rw [List.append_assoc, ← hf, hf']
+  have hl : (p ++ x).length = p'.length := by simp [hp, hp']
+  obtain ⟨e1, e2⟩ := List.append_inj h1 hl
+  exact ⟨p, q', by rw [hf, e2]; simp, hp⟩
+
+theorem located_end_nil {full : List Char} {a : Nat} {x : List Char} (hx : Located full a x) :
+    Located full (a + x.length) [] := by
+  obtain ⟨p, q, hf, hp⟩ := hx
+  exact ⟨p ++ x, q, by simp [hf], by simp [hp]⟩
+
+/-- the matches tile the source from `pos` on -/
+inductive Chain (full : List Char) : Nat → List Match → Prop
+  | nil (pos : Nat) : Chain full pos []
+  | cons {pos : Nat} {m : Match} {ms : List Match} : m.start = pos → Located full pos m.whole →
+      Chain full (pos + m.whole.length) ms → Chain full pos (m :: ms)
+
+theorem matchesOf_chain (d : Delims) : ∀ (ps : List Piece) (pre : List Char),
+    Chain (pre ++ assemble d ps) pre.length (matchesOf d pre.length ps) := by
+  intro ps
+  induction ps with
+  | nil => intro pre; simp only [matchesOf]; exact .nil _
+  | cons p ps ih =>
+    intro pre
+    have step : ∀ (txt : List Char), p.render d = txt →
+        Chain (pre ++ assemble d (p :: ps)) (pre.length + txt.length) (matchesOf d (pre.length + txt.length) ps) := by
+      intro txt htxt
+      have := ih (pre ++ txt)
+      simpa [assemble, htxt, List.append_assoc] using this
+    have here : ∀ (txt : List Char), p.render d = txt → Located (pre ++ assemble d (p :: ps)) pre.length txt := by
+      intro txt htxt
+      exact ⟨pre, assemble d ps, by simp [assemble, htxt], rfl⟩
+    cases p with
+    | text s =>
+      simp only [matchesOf, contentMatches]
+      split
+      · next he =>
+        have : s = [] := by simpa using he
+        subst this
+        simpa using step [] rfl
+      · exact .cons rfl (here s rfl) (step s rfl)
+    | out lw ws1 e ws2 rw => simp only [matchesOf]; exact .cons rfl (here _ rfl) (step _ rfl)
+    | tag lw ws1 name ws2 e ws3 rw => simp only [matchesOf]; exact .cons rfl (here _ rfl) (step _ rfl)
+    | raw lw1 a1 a2 rw1 body lw2 b1 b2 rw2 => simp only [matchesOf]; exact .cons rfl (here _ rfl) (step _ rfl)
+    | doc lw1 a1 a2 rw1 body lw2 b1 b2 rw2 => simp only [matchesOf]; exact .cons rfl (here _ rfl) (step _ rfl)
+    | sc body rw => simp only [matchesOf]; exact .cons rfl (here _ rfl) (step _ rfl)
+
+/-- while inside a block comment, the collected text is the source from `comment_index` up to here -/
+def CInv (full : List Char) (st : St) (pos : Nat) : Prop :=
+  (st.depth = 0 → st.ctext = []) ∧
+  (st.depth ≠ 0 → Located full st.cidx st.ctext ∧ st.cidx + st.ctext.length = pos)
+
+theorem commentStep_cinv (full : List Char) (st : St) (m : Match) (hd : st.depth ≠ 0)
+    (hi : CInv full st m.start) (hm : Located full m.start m.whole) :
+    CInv full (commentStep st m).1 (m.start + m.whole.length) ∧
+    ∀ t ∈ (commentStep st m).2.1, t.kind = .comment → Located full t.start t.value := by
+  obtain ⟨hl, he⟩ := hi.2 hd
+  have happ : Located full st.cidx (st.ctext ++ m.whole) := located_append hl (by rw [he]; exact hm)
+  have hlen : st.cidx + (st.ctext ++ m.whole).length = m.start + m.whole.length := by
+    simp only [List.length_append]; omega
+  unfold commentStep
+  split
+  · split
+    · refine ⟨⟨fun _ => rfl, fun h => absurd rfl h⟩, ?_⟩
+      intro t ht hk
+      simp only [List.mem_cons, List.not_mem_nil, or_false] at ht
+      rcases ht with h | h
+      · subst h; exact hl
+      · subst h; simp at hk
+    · next hne =>
+      refine ⟨⟨fun h => ?_, fun _ => ⟨happ, hlen⟩⟩, by intro t ht; simp at ht⟩
+      simp at hne; simp at h; omega
+  · split
+    · exact ⟨⟨fun h => by simp at h, fun _ => ⟨happ, hlen⟩⟩, by intro t ht; simp at ht⟩
+    · exact ⟨⟨fun h => absurd h hd, fun _ => ⟨happ, hlen⟩⟩, by intro t ht; simp at ht⟩
+
+theorem tagToks_kind (m : Match) : ∀ t ∈ tagToks m, t.kind ≠ .comment := by
+  intro t ht
+  unfold tagToks at ht
+  split at ht <;> simp at ht
+  · subst ht; simp
+  · rcases ht with h | h <;> subst h <;> simp
+
+theorem stepM_cinv (full : List Char) (st : St) (m : Match) (hi : CInv full st m.start)
+    (hm : Located full m.start m.whole) :
+    CInv full (stepM st m).1 (m.start + m.whole.length) ∧
+    ∀ t ∈ (stepM st m).2.1, t.kind = .comment → Located full t.start t.value := by
+  unfold stepM
+  split
+  · next hd => exact commentStep_cinv full st m (by simpa using hd) hi hm
+  · next hd =>
+    have hd0 : st.depth = 0 := by simpa using hd
+    have hc := hi.1 hd0
+    have keep : ∀ (b : Bool), CInv full { st with lstrip := b } (m.start + m.whole.length) :=
+      fun b => ⟨fun _ => hc, fun h => absurd hd0 h⟩
+    split
+    · exact ⟨keep _, by intro t ht hk; simp at ht; rcases ht with h | h <;> subst h <;> simp at hk⟩
+    · split
+      · refine ⟨⟨fun h => by simp at h, fun _ => ?_⟩, fun t ht hk => absurd hk (tagToks_kind m t ht)⟩
+        simp only [hc, List.length_nil, Nat.add_zero, and_true]
+        exact located_end_nil hm
+      · exact ⟨keep _, fun t ht hk => absurd hk (tagToks_kind m t ht)⟩
+    · exact ⟨keep _, by intro t ht hk; simp at ht; subst ht; simp at hk⟩
+    · exact ⟨keep _, by intro t ht hk; simp at ht; subst ht; simp at hk⟩
+    · exact ⟨keep _, by intro t ht hk; simp at ht; subst ht; simp at hk⟩
+    · have hk := contentStep_kind st m
+      have hs : (contentStep st m).1 = st := by
+        unfold contentStep; split <;> (try split) <;> rfl
+      rw [hs]
+      exact ⟨⟨fun _ => hc, fun h => absurd hd0 h⟩, fun t ht hkc => by rw [hk t ht] at hkc; simp at hkc⟩
+
+theorem tokenizeM_comment (full : List Char) : ∀ (ms : List Match) (st : St) (pos : Nat),
+    Chain full pos ms → CInv full st pos →
+    ∀ t ∈ (tokenizeM st ms).1, t.kind = .comment → Located full t.start t.value := by
+  intro ms st pos hc
+  induction hc generalizing st with
+  | nil => intro _ t ht; simp [tokenizeM] at ht
+  | @cons pos m ms hs hl _ ih =>
+    intro hi t ht hk
+    subst hs
+    obtain ⟨h1, h2⟩ := stepM_cinv full st m hi hl
+    simp only [tokenizeM] at ht
+    split at ht
+    · next st' toks e heq =>
+      have : (stepM st m).2.1 = toks := by rw [heq]
+      exact h2 t (this ▸ ht) hk
+    · next st' toks heq =>
+      have e1 : (stepM st m).2.1 = toks := by rw [heq]
+      have e2 : (stepM st m).1 = st' := by rw [heq]
+      simp only [List.mem_append] at ht
+      rcases ht with h | h
+      · exact h2 t (e1 ▸ h) hk
+      · exact ih st' (e2 ▸ h1) t h hk
+
+theorem lex_comment_located (d : Delims) (ps : List Piece) (t : Tok) (h : t ∈ (lex d ps).1)
+    (hk : t.kind = .comment) : Located (assemble d ps) t.start t.value := by
+  have hc := matchesOf_chain d ps []
+  simp only [List.length_nil, List.nil_append] at hc
+  exact tokenizeM_comment (assemble d ps) _ {} 0 hc ⟨fun _ => rfl, fun h => absurd rfl h⟩ t h hk
+
+end LiquidVerif.LexDelimsL
